@@ -11,6 +11,7 @@ mod parse;
 mod record;
 mod replay;
 mod serde_check;
+mod threads;
 
 /// number of failures that are the harness' own (reported as tool errors, exit 2)
 pub static HARNESS_ERRORS: std::sync::atomic::AtomicU64 = std::sync::atomic::AtomicU64::new(0);
@@ -32,6 +33,7 @@ fn main() {
         "dotcheck" => dot::main(&args[2..]),
         "serde" => serde_check::main(&args[2..]),
         "classes" => classes::main(&args[2..]),
+        "threads" => threads::main(&args[2..]),
         other => {
             eprintln!("unknown sub-command {other}");
             2
